@@ -466,6 +466,105 @@ def r4_7(ctx):
     ctx.floor(rid, n, 8, "equality tests on relation values")
 
 
+R48_MIRROR = [("lower", "upper"), ("LOWER", "UPPER"), ("minus", "plus"), ("MINUS", "PLUS"), ("ROUND_DOWN", "ROUND_UP"),
+              ("GREATER", "LESS"), (r"_inf\b", "_sup")]
+
+
+def r4_8(ctx):
+    from pplv.shape import canon, first_diff
+    import re
+    rid = "R4.8"
+    ctx.rule(rid, "side dispatch arms are mirror images: an if/else on a boolean named after one side (`is_lower_bound`, ...) treats the two sides of an interval symmetrically, so its else-arm is the mirror image of its then-arm under lower <-> upper, the sign of the compared difference (case 1 <-> case -1, < <-> >) and minus <-> plus infinity; an arm that answers early where its twin goes on to compare the other bound decides one side without looking (Box::relation_with says `strictly intersects` for [1,+inf) and A <= 0)")
+    fx = ctx.extract([F.driver_unit("domains.cc", file_re=r"_(templates|inlines)\.hh")])
+    subst = []
+    for a, b in R48_MIRROR:
+        if a.endswith("\\b"):
+            subst += [(a, "@1@"), (b + "\\b", a[:-2]), ("@1@", b)]
+        else:
+            subst += [(a, "@1@"), (b, a), ("@1@", b)]
+    ops = {"<": ">", ">": "<", "<=": ">=", ">=": "<="}
+
+    def norm(t):
+        """-k written as unary minus on a literal becomes the literal -k"""
+        if isinstance(t, tuple):
+            t = tuple(norm(x) for x in t)
+            if len(t) == 3 and t[0] == "unop" and t[1] == "-" and isinstance(t[2], tuple) and len(t[2]) == 1 \
+                    and isinstance(t[2][0], tuple) and t[2][0][:1] == ("int",) and str(t[2][0][1]).isdigit():
+                return ("int", "-" + str(t[2][0][1])) + tuple(t[2][0][2:])
+        return t
+
+    def mir(t):
+        if isinstance(t, tuple):
+            if len(t) >= 2 and t[0] == "int" and str(t[1]).lstrip("-").isdigit() and str(t[1]) not in ("0",):
+                v = -int(t[1])
+                return ("int", str(v)) + tuple(mir(x) for x in t[2:])
+            return tuple(mir(x) for x in t)
+        return ops.get(t, t) if isinstance(t, str) else t
+    n = 0
+    seen = set()
+    for f in fx.functions:
+        if not f.flag("pattern") or (f.relfile, f.line) in seen:
+            continue
+        seen.add((f.relfile, f.line))
+        for i_ in f.walk():
+            if i_["k"] != "if" or len(i_["c"]) < 5 or f.deref(i_["c"][4]) is None:
+                continue
+            ct = f.text(f.deref(i_["c"][2])).replace(" ", "")
+            if not re.fullmatch(r"!?is_(lower|upper)\w*", ct):
+                continue
+            then, els = f.deref(i_["c"][3]), f.deref(i_["c"][4])
+            if els["k"] == "if":
+                continue
+            n += 1
+            inst = "%s if (%s) (line %s)" % (f.name, ct, i_.get("l"))
+            a, b = mir(norm(canon(f, then, subst))), norm(canon(f, els))
+            if a == b:
+                ctx.ok(rid, inst, f.where(i_))
+            else:
+                ctx.violation(rid, inst, f.where(i_), "the else-arm is not the mirror image of the then-arm: %s" % str(first_diff(a, b))[:200])
+    ctx.floor(rid, n, 1, "side-dispatching if/else statements")
+
+
+def r4_9(ctx, fx):
+    rid = "R4.9"
+    ctx.rule(rid, "the out-parameters of the constraint classifiers are read only after the trivial case is excluded: extract_bounded_difference() / extract_octagonal_difference() answer true also for a constraint without variables (num_vars == 0), and then leave the indexes and the coefficient they return untouched — the coefficient is a recycled temporary. At every call site the first read of the returned coefficient (or indexes) on any path lies behind a test of num_vars; otherwise a variable-free constraint such as 0 >= 1 in the system that limits an extrapolation is applied with a stale coefficient to a matrix cell chosen by stale indexes")
+    n = 0
+    seen = set()
+    for f in fx.functions:
+        if f.flag("pattern") or not f.cfg or f.clsn not in ("BD_Shape", "Octagonal_Shape") or (f.relfile, f.line) in seen:
+            continue
+        seen.add((f.relfile, f.line))
+        for c in f.calls():
+            nm = f.call_name(c)
+            if nm not in ("extract_bounded_difference", "extract_octagonal_difference"):
+                continue
+            args = [f.deref(a) for a in f.call_args(c)]
+            names = [a.get("n") for a in args if a is not None and a["k"] == "ref" and a.get("dk") == "local"]
+            nv = next((x for x in names if "num_vars" in x), None)
+            outs = [x for x in names if x != nv and x not in ("c",) and not x.endswith("space_dim")]
+            if nv is None or not outs:
+                raise F.AnalysisBroken("R4.9: unknown argument form at %s" % f.where(c))
+            n += 1
+            inst = "%s::%s after %s (line %s)" % (f.clsn, f.name, nm, c.get("l"))
+            pos = f.cfg_pos(c)
+
+            def reads(x):
+                if f.within(x, c) or x["i"] == c["i"]:
+                    return False
+                return x["k"] == "ref" and x.get("n") in outs
+
+            def eb(tc, taken, nv=nv):
+                # a branch on num_vars (not the classifier call itself, which merely receives it)
+                return any(y["k"] == "ref" and y.get("n") == nv and not f.within(y, c) for y in f.walk(tc))
+            p = flow.Explorer(f, track_env=False).find_path(pos, lambda x: x["k"] == "switch" and any(y["k"] == "ref" and y.get("n") == nv for y in f.walk(f.deref(x["c"][0]) if x.get("c") else x)),
+                                                             target=lambda x: any(reads(z) for z in f.walk(x)) and not f.within(c, x), edge_blocked=eb)
+            if p is None:
+                ctx.ok(rid, inst, f.where(c))
+            else:
+                ctx.violation(rid, inst, f.where(c), "`%s` are read on a path that never tested `%s` (%s): for a constraint without variables they hold whatever was there before" % ("`, `".join(outs), nv, flow.render_path(f, p)))
+    ctx.floor(rid, n, 10, "call sites of the constraint classifiers")
+
+
 def run(ctx):
     ctx.explanation = ("C04 canonical-form protocol on BD_Shape<mpq_class> / Octagonal_Shape<mpq_class>: flag typestate over CFG paths; "
                        "decides the protocol clause (answers cannot depend on whether an operand happens to be closed/reduced), not the closure arithmetic")
@@ -478,3 +577,5 @@ def run(ctx):
     r4_4(ctx, fx)
     r4_6(ctx)
     r4_7(ctx)
+    r4_8(ctx)
+    r4_9(ctx, fx)
